@@ -465,12 +465,8 @@ pub fn chain_step<S: Src, const START: u8, const PRE: u8, const OP: u8>(s: &mut 
     if OP != OP_OTHER {
         vassert!("after the operation: calculated outcome follows the history", ch.calc_outcome() == model_outcome(&md));
     }
-    if OP != OP_OTHER {
-        vcover!("a refused push", md.len == base_len);
-    } else {
-        vcover!("a pop / outcome operation", true);
-    }
-    vcover!("an accepted push or a non-push operation", OP == OP_OTHER || md.len > base_len);
+    vcover!("a refused push (push harnesses)", OP == OP_OTHER || md.len == base_len);
+    vcover!("an accepted push (push harnesses)", OP == OP_OTHER || md.len > base_len);
     // ... optionally followed by a pop
     if s.bool() {
         let got = ch.pop();
